@@ -93,3 +93,93 @@ def heap_query(qid, params, ctx):
     except Unsupported as e:
         return {"status": ERROR, "detail": "outside encodable class: %s" % e}
     return {"status": HOLDS, "stats": stats, "validated_traces": val, "solver_time_s": time.time() - t0, "witness_ok": stats["paths"] > 0}
+
+
+def mk_tree(img, n, keys, node_start):
+    """heap_tree object: slots 1..n hold the (already heapified) keys, slot n+1 the sentinel; tree nodes are written
+    downwards from slot node_start"""
+    s = Setup(img, "build_huff_tree")
+    size = node_start + 1
+    init = [0] * 8
+    for k in keys:
+        init.extend(bv.split_bytes(64, k))
+    init.extend([0xFF] * 8)
+    init.extend([0] * (8 * (size - n - 2)))
+    h = s.region("heap_tree", 8 * size, r=True, w=True, init=init)
+    s.args = [h, n, node_start]
+    s.heap = h
+    return s
+
+
+def tree_query(qid, params, ctx):
+    """build_huff_tree (assembly) from an arbitrary min-heap of n leaves with distinct symbol ids 0..n-1 and SYMBOLIC
+    48-bit counts: on every path (z3) the recorded child ids form a full binary tree over exactly the n leaves
+    (every leaf id and every internal node id except the root occurs exactly once as a child), the root carries the
+    sum of all counts, the returned node pointer is node_start - 2(n-1), and all accesses stay inside the object."""
+    t0 = time.time()
+    stats = {"variables": 0, "clauses": 0, "paths": 0}
+    val = 0
+    try:
+        img = loader.build_image(ctx["repo"], ["igzip/proc_heap.asm"], ctx["scratch"])
+        exe = build_native_driver(img, ["build_heap", "build_huff_tree"], ctx["scratch"] + "/x86", "proc_heap_t")
+        for n in params["sizes"]:
+            node_start = n + 2 + 2 * n
+            rnd = random.Random(100 + n)
+            for trial in range(3):
+                ks = sorted(rnd.getrandbits(40) for _ in range(n))
+                keys = [(c << 16) | i for i, c in enumerate(ks)]      # sorted => a valid heap
+                ok, msg = validate_concrete(img, mk_tree(img, n, keys, node_start), exe, ret_bits=32)
+                if ok is False:
+                    return {"status": ERROR, "detail": "translator validation failed (build_huff_tree n=%d): %s" % (n, msg)}
+                val += 1
+            cnt = [z3.BitVec("c%d" % i, 48) for i in range(n)]
+            keys = [z3.Concat(cnt[i], z3.BitVecVal(i, 16)) for i in range(n)]
+            pre = [z3.ULT(c, 1 << 44) for c in cnt]           # counts < 2^44 (property text), sums cannot wrap 48 bits
+            for i in range(1, n + 1):
+                for c in (2 * i, 2 * i + 1):
+                    if c <= n:
+                        pre.append(z3.ULE(keys[i - 1], keys[c - 1]))
+            solver = z3.SolverFor("QF_BV")
+            solver.add(*pre)
+            ex = Exec(img, solver, max_paths=50000)
+            ex.split_sym_index = True
+            s = mk_tree(img, n, keys, node_start)
+            finals = ex.run(s.initial_state())
+            stats["paths"] += len(finals)
+            stats["variables"] += ex.n_insns
+            for st, out in finals:
+                if isinstance(out, Violation):
+                    _, m = smt_check(pre + st.path)
+                    cex = [m.eval(c, model_completion=True).as_long() for c in cnt]
+                    return {"status": VIOLATED, "detail": "build_huff_tree n=%d: %s at %r counts=%s" % (n, out, out.insn, cex), "cex": {"n": n, "counts": cex}, "replay_ok": None, "stats": stats}
+                abi = s.abi_check(st)
+                if abi:
+                    return {"status": VIOLATED, "detail": "ABI: " + abi, "cex": None, "replay_ok": None}
+                ret = bv.extract(st.r["rax"], 31, 0)
+                root = node_start - 2 * (n - 1)
+                bad = []
+                if not (bv.is_c(ret) and ret == root):
+                    bad.append(z3.BoolVal(True))
+                slot = lambda i: bv.z(64, bv.join_bytes([st.mem.b[s.heap + 8 * i + j] for j in range(8)]))
+                # child ids are the low 16 bits of the tree slots root..node_start; slot `root` holds the root's id
+                ids = [z3.Extract(15, 0, slot(i)) for i in range(root, node_start + 1)]
+                internal = [node_start - 2 * j for j in range(n - 1)]          # ids of the n-1 internal nodes, last one = root node id
+                one, zero = z3.BitVecVal(1, 8), z3.BitVecVal(0, 8)
+                expect_once = list(range(n)) + internal
+                for e in expect_once:
+                    c_ = sum([z3.If(x == e, one, zero) for x in ids], zero)
+                    bad.append(c_ != 1)
+                # root weight = sum of all counts
+                total = sum([z3.ZeroExt(0, c) for c in cnt[1:]], cnt[0])
+                bad.append(z3.Extract(63, 16, slot(1)) != total)
+                stats["clauses"] += len(bad)
+                r_, m = smt_check(pre + st.path + [z3.Or(*bad)])
+                if r_ == z3.unknown:
+                    return {"status": UNDECIDED, "detail": "z3 unknown"}
+                if r_ == z3.sat:
+                    cex = [m.eval(c, model_completion=True).as_long() for c in cnt]
+                    return {"status": VIOLATED, "detail": "build_huff_tree n=%d: result is not a full binary tree over the leaves / wrong root weight; counts=%s" % (n, cex),
+                            "cex": {"n": n, "counts": cex}, "replay_ok": None, "stats": stats, "validated_traces": val}
+    except Unsupported as e:
+        return {"status": ERROR, "detail": "outside encodable class: %s" % e}
+    return {"status": HOLDS, "stats": stats, "validated_traces": val, "solver_time_s": time.time() - t0, "witness_ok": stats["paths"] > 0}
